@@ -172,6 +172,16 @@ def run_unit(name, repo, scratch, with_canaries=True, jobs=8):
                   functions=unit.functions, rewrites=unit.rewrites, subs=unit.subs_applied,
                   trusted=vx.scan_trusted(text), canaries=[], gen_lines=len(unit.out))
     result.update(st)
+    # template/source synchronisation guard: a function whose text is byte-identical to the text the
+    # contracts were written against must not have lost any anchor (that would silently weaken the check)
+    pin_path = os.path.join(VERIF, os.path.dirname(tpl), 'expected.json')
+    pinned = json.load(open(pin_path)) if os.path.exists(pin_path) else {}
+    stale = [f['name'] for f in unit.functions if f.get('lost_hints') and pinned.get(f['name']) == f['sha']]
+    if stale:
+        result['status'] = 'inconclusive'
+        result['reason'] = 'template out of sync: anchors lost in unchanged function(s) %s' % stale
+        return result
+    result['changed_functions'] = [f['name'] for f in unit.functions if f['name'] in pinned and pinned[f['name']] != f['sha']]
     if st['status'] != 'ok':
         return result
     # vacuity canary: `canary_false` must be among the failures
